@@ -209,6 +209,36 @@ theorem damaged_never_fresh (hauth : Authentic E) (bc : BuildCache) (p : Str) (t
     | none => rfl
     | some x => exact absurd (hauth b' x ho) (hne x)
 
+/-! ## Store is read-only on the package being stored (frame property of `Sources.Write`) -/
+
+/-- STORE PRESERVES ITS INPUT. `prepareFile` filters the free-floating comment groups of the shallow COPY into a
+    fresh backing array; every slice of the build state that does not live in that fresh array — in particular
+    the `Comments` of the file the current build goes on to compile — denotes the same groups afterwards, and the
+    copy holds exactly the free-floating groups. (The rest of the model is functional: `store` returns a new file
+    system and cannot touch its payload argument.) -/
+theorem store_preserves_input (h : Heap) (comments : Slice) (attached : Nat → Bool) (fresh : Nat)
+    (hfresh : fresh ≠ comments.arr) :
+    (∀ s : Slice, s.arr ≠ fresh → s.view (prepareComments h comments attached fresh).1 = s.view h) ∧
+    comments.view (prepareComments h comments attached fresh).1 = comments.view h ∧
+    (prepareComments h comments attached fresh).2.view (prepareComments h comments attached fresh).1
+      = (comments.view h).filter (fun cg => !attached cg) := by
+  refine ⟨?_, ?_, ?_⟩
+  · intro s hs
+    simp [prepareComments, Slice.view, Heap.set, hs]
+  · simp [prepareComments, Slice.view, Heap.set, Ne.symm hfresh]
+  · simp [prepareComments, Slice.view, Heap.set]
+
+/-- the in-place variant (`floating := file.Comments[:0]`) does NOT have the frame property: with Comments =
+    [attached 1, floating 2, attached 3] the original file ends up with [2, 2, 3] — the attached group 1 (a doc
+    comment, e.g. one carrying //go:linkname) is gone and the floating group 2 is duplicated -/
+theorem inplace_filter_damages_input :
+    ¬ (∀ (h : Heap) (comments : Slice) (attached : Nat → Bool),
+        comments.view (prepareCommentsInPlace h comments attached).1 = comments.view h) := by
+  intro hall
+  have := hall (fun _ => [1, 2, 3]) ⟨0, 3⟩ (fun cg => cg != 2)
+  revert this
+  decide
+
 /-! ## Store: steps, crash atomicity -/
 
 theorem run_append (fs : FS) (a b : List Step) : run fs (a ++ b) = run (run fs a) b := by
